@@ -28,17 +28,14 @@ def run(chk, tier):
             sh = threads.shared_params(f)
             def pred(ff, node, env, sh=sh, f=f):
                 S = E.node_effects(ff, node)
-                for r in list(S.mod) + list(S.free):
-                    if r[0] == "arg":
-                        if ff is f:
-                            if r[1] in sh:
-                                return True
-                        else:
-                            if r[1] in threads.shared_params(ff):
-                                return True
-                return False
+                return any(r[0] == "arg" and r[1] in sh for r in list(S.mod) + list(S.free))
+            def inner(ff, node, env):
+                # inside an evaluated callee: a write through any of ITS parameters on the path taken with the constants passed;
+                # whether that memory is shared is judged at the call site in the consulting function (summary of the call)
+                S = E.node_effects(ff, node)
+                return any(r[0] == "arg" for r in list(S.mod) + list(S.free))
             try:
-                out = peval.PathEval(P, f, {}, is_effect=pred, maxstates=30000).run()
+                out = peval.PathEval(P, f, {}, is_effect=pred, callee_effect=inner, maxstates=30000).run()
                 eff = [t for t in out.terminals if t[0] == "effect"]
                 if not eff:
                     inst["ok"] = True
